@@ -1,11 +1,11 @@
-\* quick tier: every history (any length) over stores of <= 3 lines; all line kinds
+\* thorough tier: the full alphabet of DESIGN.md section 4 C17, stores of <= 3 lines
 SPECIFICATION MCSpec
 CONSTANTS
   RepairedFind = TRUE
   RepairedGen = TRUE
   Sections <- S_AaB
-  Names <- N_kK
-  Values <- V_3
+  Names <- N_kKn
+  Values <- V_4
   ExtraLines <- X_all
   Styles = {"lf", "crlf", "mix"}
   MaxTextLines = 2
